@@ -59,8 +59,9 @@ func verifCleanup(cl engine.Changelog, comments []*ast.CommentGroup) []*ast.Comm
 func runAstdiff(cases []Case, outDir string) {
 	cf, _ := os.Create(filepath.Join(outDir, "astdiff.cases"))
 	rf, _ := os.Create(filepath.Join(outDir, "astdiff.impl"))
-	cw, rw := bufio.NewWriterSize(cf, 1<<20), bufio.NewWriterSize(rf, 1<<20)
-	defer func() { cw.Flush(); rw.Flush(); cf.Close(); rf.Close() }()
+	lf, _ := os.Create(filepath.Join(outDir, "changelog.cases"))
+	cw, rw, lw := bufio.NewWriterSize(cf, 1<<20), bufio.NewWriterSize(rf, 1<<20), bufio.NewWriterSize(lf, 1<<20)
+	defer func() { cw.Flush(); rw.Flush(); lw.Flush(); cf.Close(); rf.Close(); lf.Close() }()
 	for _, c := range cases {
 		if len(c.Patches) == 0 || len(c.Src) > 6000 {
 			continue
@@ -112,9 +113,21 @@ func runAstdiff(cases []Case, outDir string) {
 				fmt.Fprintf(rw, "(res %s (changed%s))\n", id, sb.String())
 				// what the real loop does next: the calls reach the changelog, the comments
 				// inside the changed intervals are dropped
+				_, minus := cl.VerifSets() // what Replace recorded as unchanged
 				for _, x := range rec.calls {
 					cl.Changed(token.Pos(x[0]), token.Pos(x[1]))
 				}
+				var cb strings.Builder
+				fmt.Fprintf(&cb, "(case %s changelog (plus%s) (minus", id, sb.String())
+				for _, x := range minus {
+					fmt.Fprintf(&cb, " (%d %d)", x[0], x[1])
+				}
+				cb.WriteString(") (out")
+				for _, iv := range cl.ChangedIntervals() {
+					fmt.Fprintf(&cb, " (%d %d)", int(iv.Start), int(iv.End))
+				}
+				cb.WriteString("))")
+				fmt.Fprintln(lw, cb.String())
 				snap = next
 				f = fout
 				f.Comments = verifCleanup(cl, f.Comments)
